@@ -319,6 +319,14 @@ func (c *Config) validate() error {
 	if c.MaxCommittedSizePerReady == 0 {
 		c.MaxCommittedSizePerReady = c.MaxSizePerMsg
 	}
+	// MaxSizePerMsg == 0 is documented to mean "at most one entry per message".
+	// Carry the same meaning over to the apply quota: a zero quota would either
+	// pause entry application forever or trip the size assertion in
+	// raftLog.nextCommittedEnts. A quota of one byte admits exactly one entry
+	// at a time.
+	if c.MaxCommittedSizePerReady == 0 {
+		c.MaxCommittedSizePerReady = 1
+	}
 
 	if c.MaxInflightMsgs <= 0 {
 		return errors.New("max inflight messages must be greater than 0")
